@@ -90,11 +90,17 @@ var exactKinds = []simkit.Fate{
 	simkit.Delay,
 	// the topology fates are the point of the exercise: twice the weight
 	simkit.TopoSplit, simkit.TopoLeader, simkit.TopoSplitAfter, simkit.REEpochNotMatch,
+	// rarer refusals of a store, all retried by the sender (after a back-off or a reload) and without any effect
+	simkit.REMaxTSNotSynced, simkit.REDiskFull, simkit.RERecoveryInProgress, simkit.REIsWitness, simkit.RERegionNotInitialized,
+	simkit.REKeyNotInRegion, simkit.REMismatchPeerID, simkit.REReadIndexNotReady, simkit.REProposalInMerging, simkit.REServerIsBusyHint,
+	simkit.REStoreNotMatch,
 }
 
 var lossyKinds = append(append([]simkit.Fate(nil), exactKinds...),
 	simkit.DropReq, simkit.DropResp, simkit.DropReqSlow, simkit.DropRespSlow, simkit.Dup,
-	simkit.DropReq, simkit.DropResp, simkit.Dup)
+	simkit.DropReq, simkit.DropResp, simkit.Dup,
+	// definite refusals (the call fails, nothing was done) and a request that is executed but answered "result undetermined"
+	simkit.REFlashbackInProgress, simkit.RERaftTooLarge, simkit.ExecUndetermined)
 
 type gen struct {
 	r      *rand.Rand
